@@ -16,6 +16,7 @@ BUILD = os.path.join(VERIF, "build", f"p{os.getpid()}")   # per process: concurr
 VIOLATION_MSGS = (
     "postcondition not satisfied",
     "precondition not satisfied",
+    "precondition not met",          # built-in operations, e.g. "precondition not met: index in bounds for this access"
     "possible arithmetic underflow/overflow",
     "possible bit shift underflow/overflow",
     "possible division by zero",
@@ -152,6 +153,8 @@ def classify(diag, meta, world_file):
     else:
         kind = {"possible arithmetic underflow/overflow": "arith", "possible bit shift underflow/overflow": "shift",
                 "possible division by zero": "div0", "assertion failed": "assert"}.get(msg, re.sub(r"\W+", "_", msg)[:30])
+        if msg.startswith("precondition not met") and "index in bounds" in msg:
+            kind = "index"
         src = ""
         for sp in prim:
             src = " ".join(t["text"].strip() for t in sp.get("text", []))
